@@ -607,3 +607,91 @@ func DVS(maxDocs int, withA bool, yield func(idx int64, batch []Doc) bool) {
 		}
 	}
 }
+
+// ---- EXTREME: fixed batches with values far outside the small alphabets ----
+
+type Named struct {
+	Name  string
+	Batch []Doc
+}
+
+// Extremes returns a handful of fixed batches whose *values* (not shapes) are extreme: huge
+// frequencies and location numbers (multi-byte varints up to 10 bytes), long terms and stored
+// values (past 255 / 64 KiB), thousands of distinct terms in one field, thousands of locations in
+// one posting, a field repeated hundreds of times in one document.
+func Extremes() []Named {
+	var out []Named
+	rep := func(s string, n int) string {
+		b := make([]byte, 0, n)
+		for len(b) < n {
+			b = append(b, s...)
+		}
+		return string(b[:n])
+	}
+	// huge frequencies and location numbers
+	{
+		// (the reader allocates frequency x 80 bytes for a posting that has locations - a resource
+		// characteristic, not a property: the truly huge frequencies go to terms without locations)
+		big := []int{1 << 16, 1<<31 - 1, 1 << 40}
+		withLocs := []int{1 << 16, 1 << 20, 1 << 18}
+		var b []Doc
+		for i, f := range big {
+			b = append(b, Doc{IDField("e", i), {N: "a", Len: 3, Terms: []Term{
+				{T: "x", Freq: withLocs[i], Locs: []Loc{{P: 1<<32 + 5, S: 1 << 20, E: 1 << 62}, {P: 1<<63 - 1, S: 0, E: 1<<31 + 1}}},
+				{T: fmt.Sprintf("only%d", i), Freq: f},
+			}}, {N: "c", Len: 1, Terms: []Term{{T: "z", Freq: 1, Locs: []Loc{{F: "a", P: 1 << 33, S: 1 << 34, E: 1 << 35}}}}}})
+		}
+		out = append(out, Named{"bigfreq", b})
+	}
+	// long terms and values
+	{
+		t300, t70k := rep("long-term-", 300), rep("very-long-term/", 70000)
+		b := []Doc{
+			{IDField("e", 0), {N: "a", Len: 2, St: true, Val: []byte(rep("stored-value.", 70000)), Terms: []Term{{T: t300, Freq: 1}, {T: t70k, Freq: 2, Locs: []Loc{{P: 1, S: 0, E: 70000}}}}},
+				{N: "b", Len: 1, DV: true, Terms: []Term{{T: t300, Freq: 1}, {T: t300[:299], Freq: 1}}}},
+			{IDField("e", 1), {N: "a", Len: 1, Terms: []Term{{T: t70k[:69999], Freq: 1}, {T: t300, Freq: 1}}}},
+			{{N: "_id", Len: 1, St: true, Val: []byte(rep("id-", 400)), Terms: []Term{{T: rep("id-", 400), Freq: 1}}}},
+		}
+		out = append(out, Named{"longterm", b})
+	}
+	// thousands of distinct terms in one field, hundreds of doc-value terms in one document
+	{
+		var t0, t1, dv []Term
+		for i := 0; i < 3000; i++ {
+			t0 = append(t0, Term{T: fmt.Sprintf("term%05d", i), Freq: 1 + i%3})
+			if i%3 == 0 {
+				t1 = append(t1, Term{T: fmt.Sprintf("term%05d", i), Freq: 1})
+			}
+			if i < 300 {
+				dv = append(dv, Term{T: fmt.Sprintf("dv%03d", i), Freq: 1})
+			}
+		}
+		b := []Doc{
+			{IDField("e", 0), {N: "a", Len: 3000, Terms: t0}, {N: "b", Len: 300, DV: true, Terms: dv}},
+			{IDField("e", 1), {N: "a", Len: 1000, Terms: t1}},
+		}
+		out = append(out, Named{"manyterms", b})
+	}
+	// thousands of locations in one posting
+	{
+		var locs []Loc
+		for i := 0; i < 5000; i++ {
+			locs = append(locs, Loc{P: i + 1, S: i * 7, E: i*7 + 5})
+		}
+		b := []Doc{
+			{IDField("e", 0), {N: "a", Len: 5000, Terms: []Term{{T: "x", Freq: 5000, Locs: locs}}}},
+			{IDField("e", 1), {N: "a", Len: 2, Terms: []Term{{T: "x", Freq: 2, Locs: locs[:1]}}}},
+		}
+		out = append(out, Named{"manylocs", b})
+	}
+	// one field repeated hundreds of times in one document (indexed, stored, doc values)
+	{
+		d := Doc{IDField("e", 0)}
+		for i := 0; i < 200; i++ {
+			d = append(d, Field{N: "b", Len: 1, DV: true, St: true, Val: []byte(fmt.Sprintf("v%d", i)), Terms: []Term{{T: fmt.Sprintf("t%d", i%50), Freq: 1, Locs: []Loc{{P: i + 1, S: i, E: i + 1}}}}})
+		}
+		b := []Doc{d, {IDField("e", 1), {N: "b", Len: 1, DV: true, Terms: []Term{{T: "t7", Freq: 1}}}}}
+		out = append(out, Named{"manyinstances", b})
+	}
+	return out
+}
